@@ -29,16 +29,21 @@ def certain(label):
     return None
 
 
+_core_lw_anycase = re.compile(r"^[ct][whs][whs]$")
+_core_exact = re.compile(r"^(?:s[35][35]|[0-9]BPh|[0-9]BR)$")
+
+
 def derivable(label):
-    """True if under SOME reading (optional n prefix, optional a suffix, any letter case) the label denotes a class."""
-    low = label.lower()
-    cands = {low}
-    if low.startswith("n"):
-        cands.add(low[1:])
+    """True if under SOME reading the label denotes a class: optional n prefix (either case), optional a suffix (either case); the Leontis-Westhof core in
+    any letter case (the property says so), the stacking and base-phosphate / base-ribose cores as they are spelled (s35, 0BPh, 0BR): '0BPH' or '3bph' are
+    not labels of the FR3D vocabulary and, being unrecognised, have to be kept as 'other'."""
+    cands = {label}
+    if label[:1] in ("n", "N"):
+        cands.add(label[1:])
     for c in list(cands):
-        if c.endswith("a"):
+        if c[-1:] in ("a", "A"):
             cands.add(c[:-1])
-    return any(_core_liberal.match(c) for c in cands)
+    return any(_core_lw_anycase.match(c.lower()) or _core_exact.match(c) for c in cands)
 
 
 def expected(label):
